@@ -79,7 +79,7 @@ def classify_kind(site):
     k = site["kind"]
     b, bb = site["body"], site["bb"]
     t = b.blocks[bb].term
-    if k.startswith("call:panic") and t.kind == "call" and t.macro and "debug_assert" in t.macro:
+    if k.startswith("call:panic") and t.kind == "call" and (("debug_assert" in (t.macro or "")) or ("debug_assert" in (t.outer_macro or ""))):
         return "call:debug-assert"
     if k.startswith("call:arith-call:"):
         name = k.split(":")[-1]
